@@ -64,6 +64,21 @@ CHECKS = {
              "simulator supplies the histories (restart, reprovision) and hostile labels/issuers/class defaults.",
         note="AppWallet encryption cannot run (no 'cryptography' package on this image) and is not claimed. Labels/issuers without ':' and without leading/trailing blanks.",
         design_ref="DESIGN.md section 4, C15"),
+    "C16": dict(
+        level="exploration",
+        technique="deterministic simulation with fault injection: seeded operation histories on HtpasswdFile/HtdigestFile over a simulated file system and mtime clock, second bound object, external editor, I/O faults (open/read/short-write/ENOSPC), clock steps; independent reader + document model as oracle",
+        text="Seeded search over edit histories (set_password, set_hash, delete, delete_realm, check_password, get_hash, users, realms, load, "
+             "load_string, load_if_changed, save, to_string) on up to three objects -- an admin tool (autosave on/off), a server bound to the same "
+             "path, an unbound copy -- starting from generated files (comments, blank lines, duplicates, CRLF, no final newline, leading blanks, "
+             "malformed lines), both classes, utf-8/latin-1, text/bytes arguments, default and custom contexts with deprecated schemes. The file "
+             "system, its mtime clock (granularity 1 ns .. 2 s, ticks below/above it, steps back), an external editor rewriting the file directly "
+             "and armed I/O faults are simulated. After every operation the export (and after every save the file) is parsed by an independent "
+             "20-line reader and must equal the document model's users/hashes, each once, with untouched items in original order; return values, "
+             "check_password answers, hash upgrade on deprecated schemes, refusal of invalid names, atomic load, intact memory after a failed "
+             "save and the load_if_changed/mtime contract are checked.",
+        note="<=6 users x <=3 realms, 5 passwords, <=40 ops. Nothing is asserted about the content of a file torn by a failed save. Plaintext-scheme "
+             "records only in UTF-8 files. Trusted: the independent reader/document model (refmodels/htfile.py).",
+        design_ref="DESIGN.md section 4, C16"),
     "C19": dict(
         level="exploration",
         technique="deterministic simulation of real threads: seeded baton-passing scheduler pre-empting at sys.settrace line/opcode events (sticky walk, PCT, hot-spot, uniform), fork-per-run fresh first-use state, cooperative locks; per-thread outcome vs single-thread outcome",
